@@ -16,7 +16,7 @@ def main():
     results = json.load(open(resf)) if os.path.exists(resf) else {}
     assert sh('git -C /repo status --porcelain').stdout.strip() == '', '/repo is not clean'
     props = [f'C{i:02d}' for i in range(1, 21)]
-    for d in sorted(glob.glob('/verif/seeded/benign/[WX]*-*')):
+    for d in sorted(glob.glob('/verif/seeded/benign/[WXY]*-*')):
         name = os.path.basename(d)
         if names and name not in names:
             continue
